@@ -183,6 +183,11 @@ func (c *canonizer) node(n ast.Node) {
 			c.node(x.X)
 			return false
 		case *ast.IfStmt:
+			// `if a { if b { X } }` is `if a && b { X }`
+			if m := mergeNestedIf(x); m != nil {
+				c.node(m)
+				return false
+			}
 			// `if !c { A } else { B }` is rendered as `if c { B } else { A }`
 			if cond, neg := stripNot(x.Cond); neg && x.Else != nil {
 				if eb, ok := x.Else.(*ast.BlockStmt); ok {
@@ -512,4 +517,16 @@ func assignsTo(n ast.Node, e ast.Expr) bool {
 		return !found
 	})
 	return found
+}
+
+// mergeNestedIf: `if a { if b { X } }` (no else, no init on either) as `if a && b { X }`.
+func mergeNestedIf(x *ast.IfStmt) *ast.IfStmt {
+	if x.Else != nil || x.Init != nil || len(x.Body.List) != 1 {
+		return nil
+	}
+	in, ok := x.Body.List[0].(*ast.IfStmt)
+	if !ok || in.Else != nil || in.Init != nil {
+		return nil
+	}
+	return &ast.IfStmt{If: x.If, Cond: &ast.BinaryExpr{X: x.Cond, Op: token.LAND, Y: in.Cond}, Body: in.Body}
 }
